@@ -158,6 +158,21 @@ def sim_fuzz_job(pid, prop, seed, runs, idx=0, max_len=600):
     return ("sim_fuzz", args, {"SIM_PROP": prop}, None)
 
 
+THR_ASSUME = ["real threads, the library's own event thread on epoll / poll / select, real loopback UDP+TCP sockets and a mock DNS server thread inside the harness (harness/threads.cpp)",
+              "variant tsan (ThreadSanitizer, halt_on_error, detect_deadlocks) finds races / lock-order inversions on any schedule that executes both accesses; variant tasan (ASan+UBSan) sees memory errors under concurrency",
+              "schedules are not controlled: hook H4 (ares_verif_yield at every channel-lock acquisition) perturbs them with a per-thread seeded pattern; a failing program is re-run, not replayed deterministically",
+              "the only wall-clock oracles ('never completes', 'exceeds retry budget') use a budget of 9x the sum of all retry timeouts + 2 s, wait twice that, and must miss three times in a row"]
+
+
+def thread_jobs(prop, seed, quick, nt, na, cases_q, cases_t):
+    jobs = []
+    for w in range(nt):
+        jobs.append(("threads_tsan", [prop], {}, rc_params(seed * 1000 + 700 + w, cases_q if quick else cases_t, 100, noshrink=True)))
+    for w in range(na):
+        jobs.append(("threads_tasan", [prop], {}, rc_params(seed * 1000 + 800 + w, cases_q if quick else cases_t, 100, noshrink=True)))
+    return jobs
+
+
 class SimCheck(Check):
     harnesses = ["sim_rc", "sim_replay", "sim_fuzz"]
     replay_binary = "sim_replay"
@@ -217,7 +232,22 @@ class C07(SimCheck):
             "counterfactual execution: a forked child advances the virtual clock by h-1us and processes with no descriptor (any transmission, completion or server failure there means a deadline "
             "lay before the hint), the parent advances by exactly h (nothing happening and a next hint of 0 means the hint was not live); up to 6 such checks per scenario. "
             "non-trivial = a counterfactual check ran with >= 2 outstanding requests; distinct = distinct scenario text. (b) event-thread part: see C07 note in DESIGN (threads harness)")
-    required_counters = ["c07.counterfactual_checks", "c07.checks_with_2plus_deadlines"]
+    required_counters = ["c07.counterfactual_checks", "c07.checks_with_2plus_deadlines", "thr.completed_timeout", "thr.backend.epoll", "thr.backend.poll", "thr.backend.select"]
+    harnesses = ["sim_rc", "sim_replay", "sim_fuzz", "threads_tasan", "threads_tsan"]
+    assumptions = SIM_ASSUME + ["(b) " + x for x in THR_ASSUME]
+
+    def jobs(self, tier, seed, excludes):
+        return SimCheck.jobs(self, tier, seed, excludes) + thread_jobs("C07", seed, tier == "quick", 1, 4, 40, 2000)
+
+    def replay_for_text(self, text):
+        return ("threads_tasan", []) if "\nbackend " in "\n" + text else ("sim_replay", [])
+
+    def replay_for(self, path):
+        try:
+            return self.replay_for_text(open(path).read())
+        except Exception:
+            return ("sim_replay", [])
+
     CASES_Q = 1500
     FUZZ_Q = 2000
     CASES_T = 60000
@@ -286,6 +316,29 @@ class C09(SimCheck):
             "reported as success of that server; after ares_set_servers* the channel reports exactly the given set. non-trivial = a selection was checked after some server had failed (>= 2 servers); "
             "distinct = distinct scenario text")
     required_counters = ["c09.selections_checked", "c09.selections_after_failures", "c09.probe_copies"]
+
+
+class C11(Check):
+    pid = "C11"
+    harnesses = ["threads_tsan", "threads_tasan"]
+    replay_binary = "threads_tsan"
+    replay_args = ["C11"]
+    assumptions = THR_ASSUME
+    rule = ("generated programs of 2-6 client threads, 6-45 operations in total: query / search / getaddrinfo / gethostbyname (names selecting answer, delayed answer, silence, truncation->TCP, "
+            "NXDOMAIN at the mock server), ares_cancel, ares_set_servers_ports_csv, ares_reinit, ares_queue_wait_empty(1-300 ms), ares_queue_active_queries, ares_timeout, sleeps; a fifth of the "
+            "requests carry a completion callback that calls ares_reinit / starts a query / calls ares_cancel on the event thread; backend epoll|poll|select, STAYOPEN / USEVC / rotate, optional "
+            "unreachable first server, optional server that falls silent after k answers. Oracle: ThreadSanitizer and ASan/UBSan silent; every request exactly one callback (none after "
+            "ares_destroy returned); ares_queue_wait_empty()==SUCCESS implies every request whose issuing call had returned before the wait began has completed; after all client threads finished "
+            "the queue drains within the retry budget; wall-clock alarm as deadlock oracle. non-trivial = >= 2 client threads issued requests while another thread's request was pending and >= 1 "
+            "reconfiguration (reinit / set_servers) happened; distinct = distinct program text")
+    required_counters = ["thr.requests", "thr.reconfigurations", "thr.overlapping_issues", "thr.wait_empty_success", "thr.cb_reinit", "thr.cb_cancel", "thr.backend.epoll", "thr.backend.poll", "thr.backend.select"]
+    nontrivial_floor = {"quick": 30, "thorough": 200}
+
+    def jobs(self, tier, seed, excludes):
+        return thread_jobs("C11", seed, tier == "quick", 8, 4, 120, 4000)
+
+    def replay_for(self, path):
+        return "threads_tsan", []
 
 
 class C14(SimCheck):
@@ -398,4 +451,4 @@ class C17(SimCheck):
     required_counters = ["c17.server_cookie_echo_checks", "c17.timer_crossings"]
 
 
-CHECKS = {"C15": C15, "C16": C16, "C14": C14, "C17": C17, "C09": C09, "C12": C12, "C13": C13, "C08": C08, "C19": C19, "C02": C02, "C03": C03, "C04": C04, "C18": C18, "C01": C01, "C05": C05, "C06": C06, "C07": C07, "C10": C10, "C20": C20}
+CHECKS = {"C11": C11, "C15": C15, "C16": C16, "C14": C14, "C17": C17, "C09": C09, "C12": C12, "C13": C13, "C08": C08, "C19": C19, "C02": C02, "C03": C03, "C04": C04, "C18": C18, "C01": C01, "C05": C05, "C06": C06, "C07": C07, "C10": C10, "C20": C20}
